@@ -43,32 +43,42 @@ Proof. intros [|[m] r] d d' H; [congruence | reflexivity]. Qed.
 (* ------------------------------------------------------------------------------------------ *)
 (* the translated functions, characterised (the only lemmas that look inside them)              *)
 (* ------------------------------------------------------------------------------------------ *)
-Lemma SetFileMode_call_eq : forall e s m p, SetFileMode_call e s m p = (fs_chmod e s p m, p).
+Lemma resolve_id : forall e p, links e p = None -> resolve e p = p.
+Proof. intros e p H. unfold resolve. now rewrite H. Qed.
+
+Lemma SetFileMode_call_eq : forall e s m p, SetFileMode_call e s m p = (fs_chmod e s (resolve e p) m, p).
 Proof. intros; unfold SetFileMode_call; rewrite ?bind_ret; reflexivity. Qed.
 
-Ltac unfold_gate H D :=
-  unfold handle_overwrite, fs_exists, fs_is_dir, fs_st_mode;
-  repeat (progress (rewrite ?H, ?D; cbv [bind fst snd negb andb])).
+(* the gate at a path that is not a symbolic link *)
+Ltac unfold_gate L H D :=
+  unfold handle_overwrite, resolve, is_symlink; rewrite ?L; unfold fs_exists, fs_is_dir, fs_st_mode;
+  repeat (progress (rewrite ?H, ?D; cbv [bind fst snd negb andb orb])).
 
-Lemma handle_overwrite_absent : forall e s p a, s p = None -> handle_overwrite e s p a = (s, Ok).
-Proof. intros e s p a H. unfold_gate H H. reflexivity. Qed.
+Lemma handle_overwrite_absent : forall e s p a, links e p = None -> s p = None -> handle_overwrite e s p a = (s, Ok).
+Proof. intros e s p a L H. unfold_gate L H H. reflexivity. Qed.
 
-Lemma handle_overwrite_refuse : forall e s p f, s p = Some f -> f_isdir f = false ->
+Lemma handle_overwrite_refuse : forall e s p f, links e p = None -> s p = Some f -> f_isdir f = false ->
   handle_overwrite e s p false = (s, Err EExists).
-Proof. intros e s p f H D. unfold_gate H D. reflexivity. Qed.
+Proof. intros e s p f L H D. unfold_gate L H D. reflexivity. Qed.
 
-Lemma handle_overwrite_refuse_any : forall e s p f, s p = Some f ->
+Lemma handle_overwrite_refuse_any : forall e s p f, links e p = None -> s p = Some f ->
   exists er, handle_overwrite e s p false = (s, Err er).
-Proof. intros e s p f H. destruct (f_isdir f) eqn:D; unfold_gate H D; eexists; reflexivity. Qed.
+Proof. intros e s p f L H. destruct (f_isdir f) eqn:D; unfold_gate L H D; eexists; reflexivity. Qed.
 
-Lemma handle_overwrite_allow : forall e s p f, s p = Some f -> f_isdir f = false ->
+Lemma handle_overwrite_allow : forall e s p f, links e p = None -> s p = Some f -> f_isdir f = false ->
   handle_overwrite e s p true = fs_chmod e s p (N.lor (f_mode f) 144).
-Proof. intros e s p f H D. unfold_gate H D. reflexivity. Qed.
+Proof. intros e s p f L H D. unfold_gate L H D. reflexivity. Qed.
 
 (* a directory at the path is refused, whether or not overwriting is allowed (fix 7df01dd) *)
-Lemma handle_overwrite_dir : forall e s p f a, s p = Some f -> f_isdir f = true ->
+Lemma handle_overwrite_dir : forall e s p f a, links e p = None -> s p = Some f -> f_isdir f = true ->
   exists er, handle_overwrite e s p a = (s, Err er).
-Proof. intros e s p f a H D. destruct a; unfold_gate H D; cbv [andb negb]; eexists; reflexivity. Qed.
+Proof. intros e s p f a L H D. destruct a; unfold_gate L H D; eexists; reflexivity. Qed.
+
+(* does the gate of /repo refuse symbolic links (live or dangling) at the path of a file to generate?  Not before the
+   proposed fix design_notes/C12_symlink_fix.patch: exists()/chmod()/open() follow links.  Statements that need it take it as
+   a premise; which of the two holds for the translated gate is decided by computation in gate_links_dichotomy below. *)
+Definition gate_refuses_links : Prop :=
+  forall e s p a d, links e p = Some d -> exists er, handle_overwrite e s p a = (s, Err er).
 
 (* ------------------------------------------------------------------------------------------ *)
 (* the footprint relation: what any sequence of operations can do to a tree when it only        *)
@@ -187,30 +197,26 @@ Proof.
       apply IH. intros x Hx; apply HA; now right.
 Qed.
 
-Lemma handle_overwrite_rel : forall (T A : path -> Prop) p a, T p -> rel_fn e T A (fun s => handle_overwrite e s p a).
+Lemma handle_overwrite_rel : forall (T A : path -> Prop) p a, T (resolve e p) -> rel_fn e T A (fun s => handle_overwrite e s p a).
 Proof.
-  intros T A p a Tp s. destruct (s p) as [f|] eqn:E.
-  - destruct a.
-    + destruct (f_isdir f) eqn:D.
-      * destruct (handle_overwrite_dir e s p f true E D) as [er H]; rewrite H; apply rel_refl.
-      * rewrite (handle_overwrite_allow e s p f E D). now apply fs_chmod_rel.
-    + destruct (handle_overwrite_refuse_any e s p f E) as [er H]. rewrite H. apply rel_refl.
-  - rewrite handle_overwrite_absent by exact E. apply rel_refl.
+  intros T A p a Tp s. unfold handle_overwrite, bind.
+  repeat (match goal with |- context [if ?b then _ else _] => destruct b end); cbn [fst snd];
+    first [apply rel_refl | now apply fs_chmod_rel].
 Qed.
 
-Lemma run_filepps_rel : forall (T A : path -> Prop) p pps, T p -> rel_fn e T A (fun s => run_filepps e s p pps).
+Lemma run_filepps_rel : forall (T A : path -> Prop) p pps, T (resolve e p) -> rel_fn e T A (fun s => run_filepps e s p pps).
 Proof.
   intros T A p pps Tp. induction pps as [|[m] r IH]; intros s; cbn [run_filepps].
   - apply rel_refl.
   - rewrite SetFileMode_call_eq; cbn [fst snd].
-    apply (rel_bind e T A (fun s => fs_chmod e s p m) (fun s1 => run_filepps e s1 p r)); auto.
+    apply (rel_bind e T A (fun s => fs_chmod e s (resolve e p) m) (fun s1 => run_filepps e s1 p r)); auto.
     now apply fs_chmod_rel.
 Qed.
 
 Definition is_copy (a : act) : bool := match a with AShutilCopy => true | _ => false end.
 
 Lemma run_act_rel : forall (T A : path -> Prop) c p a,
-  T p -> (is_copy a = true -> T (child e p)) -> (forall x, In x (ancestors e p) -> A x) ->
+  T (resolve e p) -> (is_copy a = true -> T (child e (resolve e p))) -> (forall x, In x (ancestors e p) -> A x) ->
   rel_fn e T A (run_act render e c p a).
 Proof.
   intros T A c p a Tp Tc HA s. destruct a; cbn [run_act]; try apply rel_refl.
@@ -222,7 +228,7 @@ Proof.
 Qed.
 
 Lemma run_acts_rel : forall (T A : path -> Prop) c p l,
-  T p -> (existsb is_copy l = true -> T (child e p)) -> (forall x, In x (ancestors e p) -> A x) ->
+  T (resolve e p) -> (existsb is_copy l = true -> T (child e (resolve e p))) -> (forall x, In x (ancestors e p) -> A x) ->
   rel_fn e T A (run_acts render e c p l).
 Proof.
   intros T A c p l Tp Tc HA. induction l as [|a r IH]; intros s; cbn [run_acts].
@@ -238,40 +244,13 @@ Proof.
   intros H. apply orb_true_iff in H. apply orb_true_iff. destruct H; [left | right]; auto.
 Qed.
 
-(* the sets for a whole configuration *)
-Definition touch (c : cfg) (q : path) : Prop := In q (targets c) \/ In q (child_targets e c).
+(* directories a configuration may have to create *)
 Definition anc (c : cfg) (q : path) : Prop := In q (dir_targets e c).
-
-Lemma item_touch : forall c it, In it (items c) -> touch c (fst it).
-Proof. intros c it H. left. unfold targets. now apply in_map. Qed.
-
-Lemma item_child_touch : forall c it, In it (items c) -> copies c (snd it) = true -> touch c (child e (fst it)).
-Proof.
-  intros c it H Hc. right. unfold child_targets, copy_targets. apply in_map. apply (in_map fst).
-  apply filter_In. split; assumption.
-Qed.
 
 Lemma item_anc : forall c it x, In it (items c) -> In x (ancestors e (fst it)) -> anc c x.
 Proof.
   intros c it x H Hx. unfold anc, dir_targets. apply in_flat_map. exists (fst it). split; [|exact Hx].
   unfold targets. now apply in_map.
-Qed.
-
-Lemma write_item_rel : forall c it, In it (items c) -> rel_fn e (touch c) (anc c) (fun s => write_item render e c s it).
-Proof.
-  intros c it H s. unfold write_item. apply run_acts_rel.
-  - now apply item_touch.
-  - intros Hc. now apply item_child_touch.
-  - intros x Hx. eapply item_anc; eauto.
-Qed.
-
-Lemma write_item_prefix_rel : forall c it j, In it (items c) ->
-  rel_fn e (touch c) (anc c) (run_acts render e c (fst it) (firstn j (flat_acts c (snd it)))).
-Proof.
-  intros c it j H s. apply run_acts_rel.
-  - now apply item_touch.
-  - intros Hc. apply item_child_touch; [exact H|]. unfold copies. eapply existsb_firstn. exact Hc.
-  - intros x Hx. eapply item_anc; eauto.
 Qed.
 
 Lemma run_list_rel : forall (A0 : Type) (T A : path -> Prop) (f : fs -> A0 -> fs * result) l,
@@ -286,10 +265,6 @@ Qed.
 
 Lemma incl_firstn : forall (A0 : Type) n (l : list A0) x, In x (firstn n l) -> In x l.
 Proof. intros A0 n. induction n as [|n IH]; intros [|a r] x; cbn [firstn In]; try tauto. intros [->|H]; [now left | right; auto]. Qed.
-
-Lemma sublist_rel : forall c l, (forall it, In it l -> In it (items c)) ->
-  rel_fn e (touch c) (anc c) (fun s => run_list (write_item render e c) s l).
-Proof. intros c l H. apply run_list_rel. intros it Hit. apply write_item_rel. auto. Qed.
 
 Lemma run_list_app : forall (A0 : Type) (f : fs -> A0 -> fs * result) l1 l2 s,
   run_list f s (l1 ++ l2) = bind (run_list f s l1) (fun s1 => run_list f s1 l2).
@@ -313,42 +288,7 @@ Proof.
     + reflexivity.
 Qed.
 
-Lemma step_rel : forall c, rel_fn e (touch c) (anc c) (fun s => step render e s c).
-Proof. intros c s. rewrite step_flat. now apply sublist_rel. Qed.
-
-Lemma step_crash_rel : forall c n j junk s, rel e (touch c) (anc c) s (step_crash render e s c n j junk).
-Proof.
-  intros c n j junk s. unfold step_crash.
-  assert (R1 : rel e (touch c) (anc c) s (fst (run_list (write_item render e c) s (firstn n (items c))))).
-  { apply sublist_rel. intros it. apply incl_firstn. }
-  destruct (snd (run_list (write_item render e c) s (firstn n (items c)))); [|exact R1].
-  destruct (nth_error (items c) n) as [it|] eqn:E; [|exact R1].
-  apply nth_error_In in E.
-  assert (R2 : rel e (touch c) (anc c) s
-                 (fst (run_acts render e c (fst it) (firstn j (flat_acts c (snd it)))
-                         (fst (run_list (write_item render e c) s (firstn n (items c))))))).
-  { eapply rel_trans; [exact R1|]. apply (write_item_prefix_rel c it j E). }
-  destruct (snd (run_acts render e c (fst it) (firstn j (flat_acts c (snd it)))
-                   (fst (run_list (write_item render e c) s (firstn n (items c)))))); [|exact R2].
-  destruct junk as [g|]; [|exact R2].
-  eapply rel_trans; [exact R2|].
-  apply (fs_write_in_rel (touch c) (anc c) (parent_of e (fst it)) (fst it) g). now apply item_touch.
-Qed.
-
-Definition touch_h (h : list event) (q : path) : Prop := exists ev, In ev h /\ touch (ev_cfg ev) q.
 Definition anc_h (h : list event) (q : path) : Prop := exists ev, In ev h /\ anc (ev_cfg ev) q.
-
-Lemma event_rel : forall ev s, rel e (touch (ev_cfg ev)) (anc (ev_cfg ev)) s (apply_event render e s ev).
-Proof. intros [c|c n j junk] s; cbn [apply_event ev_cfg]; [apply step_rel | apply step_crash_rel]. Qed.
-
-Lemma history_rel : forall h s, rel e (touch_h h) (anc_h h) s (history render e s h).
-Proof.
-  induction h as [|ev r IH]; intros s; cbn [history fold_left].
-  - apply rel_refl.
-  - eapply rel_trans.
-    + eapply rel_weaken; [| |apply (event_rel ev s)]; intros q Hq; exists ev; split; auto; now left.
-    + eapply rel_weaken; [| |apply IH]; intros q [ev' [Hc Hq]]; exists ev'; split; auto; now right.
-Qed.
 
 (* consequences of the footprint *)
 Definition chmodable (s : fs) : Prop := forall q f, s q = Some f -> superuser e || f_owned f = true.
@@ -482,15 +422,16 @@ Variable e : env.
 Hypothesis Hind : render_independent render.
 Hypothesis Hwf : env_wf e.
 
-Lemma run_filepps_full : forall p pps s f, s p = Some f -> superuser e || f_owned f = true ->
+Lemma run_filepps_full : forall p pps s f, links e p = None -> s p = Some f -> superuser e || f_owned f = true ->
   exists s', run_filepps e s p pps = (s', Ok) /\
              s' p = Some (mkF (f_cid f) (last_mode pps (f_mode f)) (f_owned f) (f_isdir f)) /\
              forall q, q <> p -> s' q = s q.
 Proof.
-  intros p pps. induction pps as [|[m] r IH]; intros s f E Hp; cbn [run_filepps last_mode].
+  intros p pps. induction pps as [|[m] r IH]; intros s f L E Hp; cbn [run_filepps last_mode].
   - exists s. split; [reflexivity|]. split; [|reflexivity]. rewrite E. now destruct f.
-  - rewrite SetFileMode_call_eq; cbn [fst snd]. unfold fs_chmod. rewrite E, Hp. rewrite bind_pair_ok.
+  - rewrite SetFileMode_call_eq, (resolve_id e p L); cbn [fst snd]. unfold fs_chmod. rewrite E, Hp. rewrite bind_pair_ok.
     destruct (IH (upd s p (set_mode f (N.land m 4095))) (set_mode f (N.land m 4095))) as [s' [H1 [H2 H3]]].
+    + exact L.
     + apply upd_same.
     + exact Hp.
     + exists s'. split; [exact H1 | split; [exact H2|]]. intros q Hq. rewrite H3 by exact Hq. now apply upd_other.
@@ -505,6 +446,7 @@ Qed.
 
 Variable c : cfg.
 Variable p : path.
+Hypothesis Hl : links e p = None.          (* p is not a symbolic link *)
 Hypothesis Hd : c_dryrun c = false.
 
 Definition R := render empty_fs 0 (c_class c) p.
@@ -516,7 +458,7 @@ Definition written (s' : fs) (own : bool) : Prop :=
   exists f', s' p = Some f' /\ f_cid f' = R /\ f_owned f' = own /\ f_isdir f' = false /\
              (c_filepps c <> [] -> f_mode f' = last_mode (c_filepps c) 0).
 
-Ltac open_writer := unfold write_item; cbn [fst snd]; rewrite (flat_acts_shape c _ Hd); cbn [run_acts run_act].
+Ltac open_writer := unfold write_item; cbn [fst snd]; rewrite (flat_acts_shape c _ Hd); cbn [run_acts run_act]; rewrite ?(resolve_id e p Hl).
 
 (* the body and the file post-processors, on a state where p is absent and its directory accepts it *)
 Lemma tail_absent : forall k s2, s2 p = None -> allows e s2 (parent_of e p) = true ->
@@ -526,14 +468,14 @@ Proof.
   intros k s2 E Al.
   assert (X : exists s3 f3, (run_act render e c p (body c k) s2 = (s3, Ok)) /\ s3 p = Some f3 /\
               f_cid f3 = R /\ f_owned f3 = true /\ f_isdir f3 = false /\ forall q, q <> p -> s3 q = s2 q).
-  { unfold body. destruct k as [|[|]]; [| |destruct (c_linepps c)]; cbn [run_act];
+  { unfold body. destruct k as [|[|]]; [| |destruct (c_linepps c)]; cbn [run_act]; rewrite (resolve_id e p Hl);
     rewrite (Hind s2 (c_amb c) empty_fs 0); fold R;
     unfold fs_copy, fs_is_dir, fs_write, fs_write_in; rewrite E, Al; ex;
     unfold fs_chmod; rewrite ?upd_same; cbn [f_owned]; rewrite ?orb_true_r; ex;
     (eexists; eexists; split; [reflexivity|]; rewrite ?upd_same; split; [reflexivity|];
      cbn [f_cid f_owned f_isdir set_mode]; repeat split; auto; intros q Hq; rewrite ?upd_other by exact Hq; reflexivity). }
   destruct X as [s3 [f3 [H3 [E3 [C3 [O3 [D3 F3]]]]]]]. rewrite H3. ex.
-  destruct (run_filepps_full p (c_filepps c) s3 f3 E3) as [s4 [H4 [E4 F4]]]; [rewrite O3; apply orb_true_r|].
+  destruct (run_filepps_full p (c_filepps c) s3 f3 Hl E3) as [s4 [H4 [E4 F4]]]; [rewrite O3; apply orb_true_r|].
   rewrite H4. ex. exists s4. split; [reflexivity|]. split.
   - eexists. split; [exact E4|]. cbn [f_cid f_mode f_owned f_isdir]. repeat split; auto.
     intros Hn. now apply last_mode_irrel.
@@ -548,14 +490,14 @@ Proof.
   intros k s2 f E D Wr Hp.
   assert (X : exists s3 f3, (run_act render e c p (body c k) s2 = (s3, Ok)) /\ s3 p = Some f3 /\
               f_cid f3 = R /\ f_owned f3 = f_owned f /\ f_isdir f3 = false /\ forall q, q <> p -> s3 q = s2 q).
-  { unfold body. destruct k as [|[|]]; [| |destruct (c_linepps c)]; cbn [run_act];
+  { unfold body. destruct k as [|[|]]; [| |destruct (c_linepps c)]; cbn [run_act]; rewrite (resolve_id e p Hl);
     rewrite (Hind s2 (c_amb c) empty_fs 0); fold R;
     unfold fs_copy, fs_is_dir, fs_write, fs_write_in; rewrite E, D, ?Wr; ex;
     unfold fs_chmod; rewrite ?upd_same; cbn [f_owned set_cid]; rewrite ?Hp; ex;
     (eexists; eexists; split; [reflexivity|]; rewrite ?upd_same; split; [reflexivity|];
      cbn [f_cid f_owned f_isdir set_mode set_cid]; repeat split; auto; intros q Hq; rewrite ?upd_other by exact Hq; reflexivity). }
   destruct X as [s3 [f3 [H3 [E3 [C3 [O3 [D3 F3]]]]]]]. rewrite H3. ex.
-  destruct (run_filepps_full p (c_filepps c) s3 f3 E3) as [s4 [H4 [E4 F4]]]; [now rewrite O3|].
+  destruct (run_filepps_full p (c_filepps c) s3 f3 Hl E3) as [s4 [H4 [E4 F4]]]; [now rewrite O3|].
   rewrite H4. ex. exists s4. split; [reflexivity|]. split.
   - eexists. split; [exact E4|]. cbn [f_cid f_mode f_owned f_isdir]. repeat split; auto.
     intros Hn. now apply last_mode_irrel.
@@ -568,7 +510,7 @@ Proof. intros s. apply mkdirs_other. apply Hwf. Qed.
 Lemma body_blocked : forall k s2, s2 p = None -> allows e s2 (parent_of e p) = false ->
   run_act render e c p (body c k) s2 = (s2, Err EAccess).
 Proof.
-  intros k s2 E Al. unfold body. destruct k as [|[|]]; [| |destruct (c_linepps c)]; cbn [run_act];
+  intros k s2 E Al. unfold body. destruct k as [|[|]]; [| |destruct (c_linepps c)]; cbn [run_act]; rewrite (resolve_id e p Hl);
   unfold fs_copy, fs_is_dir, fs_write, fs_write_in; rewrite E, Al; ex; reflexivity.
 Qed.
 
@@ -577,7 +519,7 @@ Lemma W_absent : forall k s, s p = None ->
   (snd (M s) = Ok /\ allows e (fst (M s)) (parent_of e p) = true /\
    exists s', W k s = (s', Ok) /\ written s' true /\ forall q, q <> p -> s' q = fst (M s) q).
 Proof.
-  intros k s E. open_writer. rewrite (handle_overwrite_absent e s p _ E). ex.
+  intros k s E. open_writer. rewrite (handle_overwrite_absent e s p _ Hl E). ex.
   pose proof (M_keeps_p s) as Kp. pose proof (mkdirs_err_kind e (ancestors e p) None s) as Ek.
   destruct (M s) as [s2 [|er]] eqn:EM; cbn [fst snd] in *; ex.
   - rewrite E in Kp. destruct (allows e s2 (parent_of e p)) eqn:Al.
@@ -588,17 +530,17 @@ Qed.
 
 Lemma W_refuse_any : forall k s f, s p = Some f -> c_allow c = false -> exists er, W k s = (s, Err er).
 Proof.
-  intros k s f E Ha. open_writer. rewrite Ha. destruct (handle_overwrite_refuse_any e s p f E) as [er H].
+  intros k s f E Ha. open_writer. rewrite Ha. destruct (handle_overwrite_refuse_any e s p f Hl E) as [er H].
   rewrite H. ex. eauto.
 Qed.
 
 Lemma W_refuse : forall k s f, s p = Some f -> f_isdir f = false -> c_allow c = false -> W k s = (s, Err EExists).
-Proof. intros k s f E D Ha. open_writer. rewrite Ha, (handle_overwrite_refuse e s p f E D). ex. reflexivity. Qed.
+Proof. intros k s f E D Ha. open_writer. rewrite Ha, (handle_overwrite_refuse e s p f Hl E D). ex. reflexivity. Qed.
 
 Lemma W_noperm : forall k s f, s p = Some f -> f_isdir f = false -> c_allow c = true -> superuser e || f_owned f = false ->
   W k s = (s, Err EPermChmod).
 Proof.
-  intros k s f E D Ha Hp. open_writer. rewrite Ha, (handle_overwrite_allow e s p f E D). unfold fs_chmod. rewrite E, Hp. ex. reflexivity.
+  intros k s f E D Ha Hp. open_writer. rewrite Ha, (handle_overwrite_allow e s p f Hl E D). unfold fs_chmod. rewrite E, Hp. ex. reflexivity.
 Qed.
 
 Definition gated (s : fs) (f : fmeta) : fs := upd s p (set_mode f (N.land (N.lor (f_mode f) 144) 4095)).
@@ -608,7 +550,7 @@ Lemma W_overwrite : forall k s f, s p = Some f -> f_isdir f = false -> c_allow c
   (snd (M (gated s f)) = Ok /\
    exists s', W k s = (s', Ok) /\ written s' (f_owned f) /\ forall q, q <> p -> s' q = fst (M (gated s f)) q).
 Proof.
-  intros k s f E D Ha Hp. open_writer. rewrite Ha, (handle_overwrite_allow e s p f E D). unfold fs_chmod. rewrite E, Hp. ex.
+  intros k s f E D Ha Hp. open_writer. rewrite Ha, (handle_overwrite_allow e s p f Hl E D). unfold fs_chmod. rewrite E, Hp. ex.
   fold (gated s f). pose proof (M_keeps_p (gated s f)) as Kp. unfold gated at 2 in Kp. rewrite upd_same in Kp.
   destruct (M (gated s f)) as [s2 [|er]] eqn:EM; cbn [fst snd] in *; ex.
   - right. split; [reflexivity|].
@@ -620,7 +562,7 @@ Qed.
 
 Lemma W_dir_refused : forall k s f, s p = Some f -> f_isdir f = true -> exists er, W k s = (s, Err er).
 Proof.
-  intros k s f E D. open_writer. destruct (handle_overwrite_dir e s p f (c_allow c) E D) as [er H]. rewrite H. ex. eauto.
+  intros k s f E D. open_writer. destruct (handle_overwrite_dir e s p f (c_allow c) Hl E D) as [er H]. rewrite H. ex. eauto.
 Qed.
 
 (* a successful write leaves the canonical regular file *)
@@ -677,12 +619,12 @@ Lemma gate_ok_nodir : forall s s1 a, handle_overwrite e s p a = (s1, Ok) -> fs_i
 Proof.
   intros s s1 a H. unfold fs_is_dir. destruct (s p) as [f|] eqn:E.
   - destruct (f_isdir f) eqn:D.
-    + destruct (handle_overwrite_dir e s p f a E D) as [er H1]. congruence.
+    + destruct (handle_overwrite_dir e s p f a Hl E D) as [er H1]. congruence.
     + destruct a.
-      * rewrite (handle_overwrite_allow e s p f E D) in H. unfold fs_chmod in H. rewrite E in H.
+      * rewrite (handle_overwrite_allow e s p f Hl E D) in H. unfold fs_chmod in H. rewrite E in H.
         destruct (superuser e || f_owned f); [|discriminate]. injection H as <-. rewrite upd_same. exact D.
-      * rewrite (handle_overwrite_refuse e s p f E D) in H. discriminate.
-  - rewrite (handle_overwrite_absent e s p a E) in H. injection H as <-. now rewrite E.
+      * rewrite (handle_overwrite_refuse e s p f Hl E D) in H. discriminate.
+  - rewrite (handle_overwrite_absent e s p a Hl E) in H. injection H as <-. now rewrite E.
 Qed.
 
 Lemma rel_bind_ok : forall (T A : path -> Prop) x k s,
@@ -699,23 +641,24 @@ Proof.
   intros k j s. rewrite (flat_acts_shape c k Hd).
   set (T := fun q => q = p). set (A := fun q => In q (ancestors e p)).
   assert (TA : forall x, In x (ancestors e p) -> A x) by auto.
+  assert (Tr : T (resolve e p)) by (unfold T; apply (resolve_id e p Hl)).
   assert (Body : forall s2, fs_is_dir s2 p = false -> rel e T A s2 (fst (run_act render e c p (body c k) s2))).
-  { intros s2 P. unfold body. destruct k as [|[|]]; [| |destruct (c_linepps c)]; cbn [run_act];
+  { intros s2 P. unfold body. destruct k as [|[|]]; [| |destruct (c_linepps c)]; cbn [run_act]; rewrite (resolve_id e p Hl);
       try (apply (fs_write_in_rel e T A); reflexivity).
     unfold fs_copy. rewrite P.
     apply (rel_bind e T A (fun s => fs_write e s p (render s2 (c_amb c) (c_class c) p)) (fun s1 => fs_chmod e s1 p (c_resmode c))).
     - intros s0. apply fs_write_in_rel. reflexivity.
     - apply fs_chmod_rel. reflexivity. }
   destruct j as [|[|[|[|j]]]]; cbn [firstn run_acts]; try apply rel_refl.
-  - rewrite bind_ret. apply (handle_overwrite_rel e T A p (c_allow c) eq_refl).
-  - apply rel_bind_ok; [apply (handle_overwrite_rel e T A p (c_allow c) eq_refl)|]. intros _. cbn [run_acts].
+  - rewrite bind_ret. apply (handle_overwrite_rel e T A p (c_allow c) Tr).
+  - apply rel_bind_ok; [apply (handle_overwrite_rel e T A p (c_allow c) Tr)|]. intros _. cbn [run_acts].
     rewrite bind_ret. cbn [run_act]. now apply mkdirs_rel.
-  - apply rel_bind_ok; [apply (handle_overwrite_rel e T A p (c_allow c) eq_refl)|]. intros G1. cbn [run_acts].
+  - apply rel_bind_ok; [apply (handle_overwrite_rel e T A p (c_allow c) Tr)|]. intros G1. cbn [run_acts].
     apply rel_bind_ok; [cbn [run_act]; now apply mkdirs_rel|]. intros G2. cbn [run_acts]. rewrite bind_ret.
     apply Body. cbn [run_act] in *. unfold fs_is_dir. rewrite M_keeps_p.
     destruct (handle_overwrite e s p (c_allow c)) as [s1 r1] eqn:EH. cbn [fst snd] in *. subst r1. exact (gate_ok_nodir s s1 _ EH).
   - replace (firstn j []) with (@nil act) by (now destruct j). cbn [run_acts].
-    apply rel_bind_ok; [apply (handle_overwrite_rel e T A p (c_allow c) eq_refl)|]. intros G1. cbn [run_acts].
+    apply rel_bind_ok; [apply (handle_overwrite_rel e T A p (c_allow c) Tr)|]. intros G1. cbn [run_acts].
     apply rel_bind_ok; [cbn [run_act]; now apply mkdirs_rel|]. intros G2. cbn [run_acts].
     apply rel_bind_ok.
     + apply Body. cbn [run_act] in *. unfold fs_is_dir. rewrite M_keeps_p.
@@ -736,7 +679,7 @@ Proof.
     intros a Ha'. left. unfold gated. apply upd_other. intros ->. exact (Hwf p Ha').
   - destruct (W_absent k s E) as [[er [H1 H2]]|[_ [_ [s2 [H1 [H2 _]]]]]]; [|eauto].
     exfalso. unfold write_item in H1. cbn [fst snd] in H1. rewrite (flat_acts_shape c _ Hd) in H1. cbn [run_acts run_act] in H1.
-    rewrite (handle_overwrite_absent e s p _ E) in H1. rewrite bind_pair_ok in H1.
+    rewrite (handle_overwrite_absent e s p _ Hl E) in H1. rewrite bind_pair_ok in H1.
     pose proof (M_keeps_p s) as Kp. rewrite E in Kp.
     destruct (M s) as [s2 r2]; cbn [fst snd] in *. subst r2. rewrite bind_pair_ok in H1.
     destruct (tail_absent k s2 Kp R2) as [s3 [H3 _]]. rewrite H3 in H1. discriminate.
@@ -763,66 +706,120 @@ Notation WL c := (run_list (write_item render e c)).
 Notation Rn c p := (render empty_fs 0 (c_class c) p).
 
 Definition tgt (c : cfg) (q : path) : Prop := In q (targets c).
+
+(* symbolic links: a path is harmless when it is not a link, or when the gate refuses links *)
+Definition link_ok (p : path) : Prop := links e p = None \/ gate_refuses_links.
+Definition links_safe (c : cfg) : Prop := forall p, In p (targets c) -> link_ok p.
+Definition links_clear (c : cfg) : Prop := forall p, In p (targets c) -> links e p = None.
+
+Lemma link_cases : forall p, link_ok p -> links e p = None \/ (gate_refuses_links /\ exists d, links e p = Some d).
+Proof. intros p [H|H]; [now left|]. destruct (links e p) as [d|] eqn:L; [right; eauto | now left]. Qed.
+
+Lemma links_clear_safe : forall c, links_clear c -> links_safe c.
+Proof. intros c H p Hp. left. now apply H. Qed.
+
+Lemma W_link_refused : forall c p d k s, gate_refuses_links -> links e p = Some d -> c_dryrun c = false ->
+  exists er, write_item render e c s (p, k) = (s, Err er).
+Proof.
+  intros c p d k s Hg L Hd. unfold write_item. cbn [fst snd]. rewrite (flat_acts_shape c k Hd). cbn [run_acts run_act].
+  destruct (Hg e s p (c_allow c) d L) as [er H]. rewrite H, bind_pair_err. eauto.
+Qed.
+
+Lemma W_link_prefix : forall c p d k j s, gate_refuses_links -> links e p = Some d -> c_dryrun c = false ->
+  run_acts render e c p (firstn j (flat_acts c k)) s = (s, Ok) /\ j = O \/
+  exists er, run_acts render e c p (firstn j (flat_acts c k)) s = (s, Err er).
+Proof.
+  intros c p d k j s Hg L Hd. rewrite (flat_acts_shape c k Hd). destruct j as [|j]; cbn [firstn run_acts]; [left; auto|].
+  right. cbn [run_act]. destruct (Hg e s p (c_allow c) d L) as [er H]. rewrite H, bind_pair_err. eauto.
+Qed.
 (* what a configuration needs as a directory it (or another one) never writes as a file, and vice versa *)
 Definition compatible (c c' : cfg) : Prop :=
   (forall q, anc e c q -> ~ tgt c' q) /\ (forall q, anc e c' q -> ~ tgt c q).
 
 (* ---- the fine footprint: targets and missing directories above them, nothing else ---- *)
-Lemma write_item_rel_fine : forall c it, In it (items c) -> rel_fn e (tgt c) (anc e c) (fun s => write_item render e c s it).
+Lemma write_item_rel_fine : forall c it, In it (items c) -> link_ok (fst it) ->
+  rel_fn e (tgt c) (anc e c) (fun s => write_item render e c s it).
 Proof.
-  intros c [p k] H s. destruct (c_dryrun c) eqn:Hd.
+  intros c [p k] H Lk s. destruct (c_dryrun c) eqn:Hd.
   - rewrite W_dry by exact Hd. apply rel_refl.
-  - eapply rel_weaken; [| |apply (W_rel_fine render e Hind Hwf c p Hd k s)].
+  - destruct (link_cases p Lk) as [Hl|[Hg [d L]]];
+      [|destruct (W_link_refused c p d k s Hg L Hd) as [er X]; rewrite X; apply rel_refl].
+    eapply rel_weaken; [| |apply (W_rel_fine render e Hind Hwf c p Hl Hd k s)].
     + intros q ->. unfold tgt, targets. now apply (in_map fst _ (p, k)).
     + intros q Hq. now apply (item_anc e c (p, k)).
 Qed.
 
-Lemma write_item_prefix_rel_fine : forall c it j, In it (items c) ->
+Lemma write_item_prefix_rel_fine : forall c it j, In it (items c) -> link_ok (fst it) ->
   rel_fn e (tgt c) (anc e c) (run_acts render e c (fst it) (firstn j (flat_acts c (snd it)))).
 Proof.
-  intros c [p k] j H s. cbn [fst snd]. destruct (c_dryrun c) eqn:Hd.
+  intros c [p k] j H Lk s. cbn [fst snd] in *. destruct (c_dryrun c) eqn:Hd.
   - rewrite flat_acts_dry by exact Hd. replace (firstn j []) with (@nil act) by (now destruct j). apply rel_refl.
-  - eapply rel_weaken; [| |apply (W_prefix_rel_fine render e Hwf c p Hd k j s)].
+  - destruct (link_cases p Lk) as [Hl|[Hg [d L]]];
+      [|destruct (W_link_prefix c p d k j s Hg L Hd) as [[X _]|[er X]]; rewrite X; apply rel_refl].
+    eapply rel_weaken; [| |apply (W_prefix_rel_fine render e Hwf c p Hl Hd k j s)].
     + intros q ->. unfold tgt, targets. now apply (in_map fst _ (p, k)).
     + intros q Hq. now apply (item_anc e c (p, k)).
 Qed.
 
-Lemma sublist_rel_fine : forall c l, (forall it, In it l -> In it (items c)) ->
+Lemma item_link_ok : forall c it, links_safe c -> In it (items c) -> link_ok (fst it).
+Proof. intros c it H Hi. apply H. unfold targets. now apply in_map. Qed.
+
+Lemma sublist_rel_fine : forall c l, links_safe c -> (forall it, In it l -> In it (items c)) ->
   rel_fn e (tgt c) (anc e c) (fun s => WL c s l).
-Proof. intros c l H. apply run_list_rel. intros it Hit. apply write_item_rel_fine. auto. Qed.
+Proof. intros c l Ls H. apply run_list_rel. intros it Hit. apply write_item_rel_fine; auto. apply (item_link_ok c); auto. Qed.
 
-Lemma step_rel_fine : forall c, rel_fn e (tgt c) (anc e c) (fun s => step render e s c).
-Proof. intros c s. rewrite step_flat. now apply sublist_rel_fine. Qed.
+Lemma step_rel_fine : forall c, links_safe c -> rel_fn e (tgt c) (anc e c) (fun s => step render e s c).
+Proof. intros c Ls s. rewrite step_flat. now apply sublist_rel_fine. Qed.
 
-Lemma step_crash_rel_fine : forall c n j junk s, rel e (tgt c) (anc e c) s (step_crash render e s c n j junk).
+Lemma step_crash_rel_fine : forall c n j junk s, links_safe c -> rel e (tgt c) (anc e c) s (step_crash render e s c n j junk).
 Proof.
-  intros c n j junk s. unfold step_crash.
+  intros c n j junk s Ls. unfold step_crash.
   assert (R1 : rel e (tgt c) (anc e c) s (fst (WL c s (firstn n (items c))))).
-  { apply sublist_rel_fine. intros it. apply incl_firstn. }
+  { apply sublist_rel_fine; auto. intros it. apply incl_firstn. }
   destruct (snd (WL c s (firstn n (items c)))); [|exact R1].
-  destruct (nth_error (items c) n) as [it|] eqn:E; [|exact R1].
-  apply nth_error_In in E.
-  assert (R2 : rel e (tgt c) (anc e c) s
-                 (fst (run_acts render e c (fst it) (firstn j (flat_acts c (snd it))) (fst (WL c s (firstn n (items c))))))).
-  { eapply rel_trans; [exact R1|]. apply (write_item_prefix_rel_fine c it j E). }
-  destruct (snd (run_acts render e c (fst it) (firstn j (flat_acts c (snd it))) (fst (WL c s (firstn n (items c)))))); [|exact R2].
+  destruct (nth_error (items c) n) as [[p k]|] eqn:E; [|exact R1].
+  apply nth_error_In in E. cbn [fst snd].
+  set (s1 := fst (WL c s (firstn n (items c)))) in *.
+  assert (R2 : rel e (tgt c) (anc e c) s (fst (run_acts render e c p (firstn j (flat_acts c k)) s1))).
+  { eapply rel_trans; [exact R1|]. apply (write_item_prefix_rel_fine c (p, k) j E). apply (item_link_ok c (p, k)); auto. }
+  destruct (snd (run_acts render e c p (firstn j (flat_acts c k)) s1)) eqn:Eok; [|exact R2].
   destruct junk as [g|]; [|exact R2].
-  eapply rel_trans; [exact R2|].
-  apply (fs_write_in_rel e (tgt c) (anc e c) (parent_of e (fst it)) (fst it) g). unfold tgt, targets. now apply in_map.
+  assert (Wr : rel e (tgt c) (anc e c) s
+                 (fst (fs_write e (fst (run_acts render e c p (firstn j (flat_acts c k)) s1)) (resolve e p) g)) ->
+               forall a, nth_error (flat_acts c k) j = Some a -> (a = AOpenWrite \/ a = AShutilCopy) ->
+               rel e (tgt c) (anc e c) s
+                 (match a with
+                  | AOpenWrite | AShutilCopy => fst (fs_write e (fst (run_acts render e c p (firstn j (flat_acts c k)) s1)) (resolve e p) g)
+                  | _ => fst (run_acts render e c p (firstn j (flat_acts c k)) s1) end)).
+  { intros X a _ [->| ->]; exact X. }
+  destruct (nth_error (flat_acts c k) j) as [a|] eqn:En; [|exact R2].
+  assert (Ha : (a = AOpenWrite \/ a = AShutilCopy) \/ (a <> AOpenWrite /\ a <> AShutilCopy))
+    by (destruct a; try (left; auto; fail); right; split; discriminate).
+  destruct Ha as [Ha|[N1 N2]]; [|destruct a; try exact R2; congruence].
+  apply (Wr); auto.
+  (* the write happens: the path is not a link (a link would have stopped the prefix at the gate) *)
+  destruct (c_dryrun c) eqn:Hd; [rewrite flat_acts_dry in En by exact Hd; destruct j; discriminate|].
+  assert (Hl : links e p = None).
+  { destruct (link_cases p (item_link_ok c (p, k) Ls E)) as [Hl|[Hg [d L]]]; [exact Hl|]. exfalso.
+    destruct (W_link_prefix c p d k j s1 Hg L Hd) as [[_ ->]|[er X]].
+    - rewrite (flat_acts_shape c k Hd) in En. cbn in En. injection En as <-. destruct Ha; discriminate.
+    - rewrite X in Eok. discriminate. }
+  eapply rel_trans; [exact R2|]. rewrite (resolve_id e p Hl).
+  apply (fs_write_in_rel e (tgt c) (anc e c) (parent_of e p) p g). unfold tgt, targets. now apply (in_map fst _ (p, k)).
 Qed.
 
 Definition tgt_h (h : list event) (q : path) : Prop := exists ev, In ev h /\ tgt (ev_cfg ev) q.
 
-Lemma event_rel_fine : forall ev s, rel e (tgt (ev_cfg ev)) (anc e (ev_cfg ev)) s (apply_event render e s ev).
-Proof. intros [c|c n j junk] s; cbn [apply_event ev_cfg]; [apply step_rel_fine | apply step_crash_rel_fine]. Qed.
+Lemma event_rel_fine : forall ev s, links_safe (ev_cfg ev) -> rel e (tgt (ev_cfg ev)) (anc e (ev_cfg ev)) s (apply_event render e s ev).
+Proof. intros [c|c n j junk] s Ls; cbn [apply_event ev_cfg] in *; [now apply step_rel_fine | now apply step_crash_rel_fine]. Qed.
 
-Lemma history_rel_fine : forall h s, rel e (tgt_h h) (anc_h e h) s (history render e s h).
+Lemma history_rel_fine : forall h s, (forall ev, In ev h -> links_safe (ev_cfg ev)) -> rel e (tgt_h h) (anc_h e h) s (history render e s h).
 Proof.
-  induction h as [|ev r IH]; intros s; cbn [history fold_left].
+  induction h as [|ev r IH]; intros s Ls; cbn [history fold_left].
   - apply rel_refl.
   - eapply rel_trans.
-    + eapply rel_weaken; [| |apply (event_rel_fine ev s)]; intros q Hq; exists ev; split; auto; now left.
-    + eapply rel_weaken; [| |apply IH]; intros q [ev' [Hc Hq]]; exists ev'; split; auto; now right.
+    + eapply rel_weaken; [| |apply (event_rel_fine ev s (Ls ev (or_introl eq_refl)))]; intros q Hq; exists ev; split; auto; now left.
+    + eapply rel_weaken; [| |apply IH; intros ev' H'; apply Ls; now right]; intros q [ev' [Hc Hq]]; exists ev'; split; auto; now right.
 Qed.
 
 Lemma mkdirs_keeps : forall l prev s q, s q <> None -> fst (mkdirs e prev l s) q = s q.
@@ -832,38 +829,48 @@ Proof.
 Qed.
 
 (* a successful write of p changes no other existing entry *)
-Lemma W_frame_ok : forall c p k s s', c_dryrun c = false -> write_item render e c s (p, k) = (s', Ok) ->
+Lemma W_frame_ok : forall c p k s s', links e p = None -> c_dryrun c = false -> write_item render e c s (p, k) = (s', Ok) ->
   forall q, q <> p -> s q <> None -> s' q = s q.
 Proof.
-  intros c p k s s' Hd H q Hq Hs.
+  intros c p k s s' Hl Hd H q Hq Hs.
   replace s' with (fst (write_item render e c s (p, k))) by now rewrite H.
-  destruct (W_rel_fine render e Hind Hwf c p Hd k s q) as [F _]. destruct (F Hq) as [X|[_ [X _]]]; [exact X | congruence].
+  destruct (W_rel_fine render e Hind Hwf c p Hl Hd k s q) as [F _]. destruct (F Hq) as [X|[_ [X _]]]; [exact X | congruence].
 Qed.
 
-Lemma list_frame_ok : forall c, c_dryrun c = false -> forall l s s',
+(* an item whose write succeeded is not behind a link (the gate would have refused, or there is none) *)
+Lemma ok_item_nolink : forall c p k s s1, link_ok p -> c_dryrun c = false -> write_item render e c s (p, k) = (s1, Ok) -> links e p = None.
+Proof.
+  intros c p k s s1 Lk Hd H. destruct (link_cases p Lk) as [Hl|[Hg [d L]]]; [exact Hl|].
+  destruct (W_link_refused c p d k s Hg L Hd) as [er X]. congruence.
+Qed.
+
+Lemma list_frame_ok : forall c, c_dryrun c = false -> forall l s s', (forall p, In p (map fst l) -> link_ok p) ->
   WL c s l = (s', Ok) -> forall q, ~ In q (map fst l) -> s q <> None -> s' q = s q.
 Proof.
-  intros c Hd l. induction l as [|[p0 k] r IH]; intros s s' H q Hq Hs; cbn [run_list map fst] in *.
+  intros c Hd l. induction l as [|[p0 k] r IH]; intros s s' Lk H q Hq Hs; cbn [run_list map fst] in *.
   - injection H as <-. reflexivity.
   - apply bind_ok in H. destruct H as [s1 [H1 H2]].
+    assert (Hl : links e p0 = None) by (apply (ok_item_nolink c p0 k s s1); auto; apply Lk; now left).
     assert (E1 : s1 q = s q).
-    { apply (W_frame_ok c p0 k s s1 Hd H1); [intros ->; apply Hq; now left | exact Hs]. }
-    rewrite <- E1. apply (IH s1 s' H2); [intros X; apply Hq; now right | congruence].
+    { apply (W_frame_ok c p0 k s s1 Hl Hd H1); [intros ->; apply Hq; now left | exact Hs]. }
+    rewrite <- E1. apply (IH s1 s'); [intros x Hx; apply Lk; now right | exact H2 | intros X; apply Hq; now right | congruence].
 Qed.
 
-Lemma list_canonical : forall c, c_dryrun c = false -> forall l s s' p,
+Lemma list_canonical : forall c, c_dryrun c = false -> forall l s s' p, (forall x, In x (map fst l) -> link_ok x) ->
   WL c s l = (s', Ok) -> In p (map fst l) ->
   exists f', s' p = Some f' /\ f_cid f' = Rn c p /\ f_isdir f' = false /\
              (c_filepps c <> [] -> f_mode f' = last_mode (c_filepps c) 0).
 Proof.
-  intros c Hd l. induction l as [|[p0 k] r IH]; intros s s' p H Hin; cbn [run_list map fst] in *; [contradiction|].
+  intros c Hd l. induction l as [|[p0 k] r IH]; intros s s' p Lk H Hin; cbn [run_list map fst] in *; [contradiction|].
   apply bind_ok in H. destruct H as [s1 [H1 H2]].
+  assert (Hl : links e p0 = None) by (apply (ok_item_nolink c p0 k s s1); auto; apply Lk; now left).
+  assert (Lk' : forall x, In x (map fst r) -> link_ok x) by (intros x Hx; apply Lk; now right).
   destruct (in_dec N.eq_dec p (map fst r)) as [Hr|Hr].
   - eapply IH; eauto.
   - destruct Hin as [<-|Hin]; [|contradiction].
-    destruct (W_ok render e Hind Hwf c p0 Hd k s s1 H1) as [own [f' [E [C [_ [D M]]]]]].
+    destruct (W_ok render e Hind Hwf c p0 Hl Hd k s s1 H1) as [own [f' [E [C [_ [D M]]]]]].
     exists f'. rewrite <- E. split; [|auto].
-    eapply list_frame_ok; eauto. congruence.
+    apply (list_frame_ok c Hd r s1 s' Lk' H2); [exact Hr | congruence].
 Qed.
 
 Lemma list_dry : forall c, c_dryrun c = true -> forall l s, WL c s l = (s, Ok).
@@ -874,32 +881,38 @@ Qed.
 
 (* ---- no overwrite ---- *)
 Lemma list_noov_keep : forall c, c_dryrun c = false -> c_allow c = false -> forall l s q,
-  s q <> None -> fst (WL c s l) q = s q.
+  (forall p, In p (map fst l) -> link_ok p) -> s q <> None -> fst (WL c s l) q = s q.
 Proof.
-  intros c Hd Ha l. induction l as [|[p0 k] r IH]; intros s q Hq; cbn [run_list]; [reflexivity|].
+  intros c Hd Ha l. induction l as [|[p0 k] r IH]; intros s q Lk Hq; cbn [run_list map fst] in *; [reflexivity|].
+  assert (Lk' : forall x, In x (map fst r) -> link_ok x) by (intros x Hx; apply Lk; now right).
+  destruct (link_cases p0 (Lk p0 (or_introl eq_refl))) as [Hl|[Hg [d L]]];
+    [|destruct (W_link_refused c p0 d k s Hg L Hd) as [er X]; rewrite X; reflexivity].
   destruct (s p0) as [f|] eqn:E.
-  - destruct (W_refuse_any render e c p0 Hd k s f E Ha) as [er H]. rewrite H. reflexivity.
+  - destruct (W_refuse_any render e c p0 Hl Hd k s f E Ha) as [er H]. rewrite H. reflexivity.
   - assert (Hne : q <> p0) by congruence.
     assert (F : fst (write_item render e c s (p0, k)) q = s q).
-    { destruct (W_rel_fine render e Hind Hwf c p0 Hd k s q) as [X _]. destruct (X Hne) as [Y|[_ [Y _]]]; [exact Y | congruence]. }
+    { destruct (W_rel_fine render e Hind Hwf c p0 Hl Hd k s q) as [X _]. destruct (X Hne) as [Y|[_ [Y _]]]; [exact Y | congruence]. }
     destruct (write_item render e c s (p0, k)) as [s1 [|er]]; cbn [fst] in F.
-    + rewrite bind_pair_ok. rewrite IH by congruence. exact F.
+    + rewrite bind_pair_ok. rewrite IH by (auto; congruence). exact F.
     + rewrite bind_pair_err. exact F.
 Qed.
 
 (* a run that reaches an existing entry it may not replace fails: --no-overwrite conflicts, and directories always *)
-Lemma list_blocked_fails : forall c, c_dryrun c = false -> forall l s,
+Lemma list_blocked_fails : forall c, c_dryrun c = false -> links_safe c -> forall l s,
   (forall it, In it l -> In it (items c)) ->
   (exists p f, In p (map fst l) /\ s p = Some f /\ (c_allow c = false \/ f_isdir f = true)) -> snd (WL c s l) <> Ok.
 Proof.
-  intros c Hd l. induction l as [|[p0 k] r IH]; intros s Hsub [p [f [Hin [Hp Hb]]]]; cbn [run_list map fst] in *; [contradiction|].
+  intros c Hd Ls l. induction l as [|[p0 k] r IH]; intros s Hsub [p [f [Hin [Hp Hb]]]]; cbn [run_list map fst] in *; [contradiction|].
   assert (Hit : In (p0, k) (items c)) by (apply Hsub; now left).
+  pose proof (item_link_ok c (p0, k) Ls Hit) as Lk0. cbn [fst] in Lk0.
+  destruct (link_cases p0 Lk0) as [Hl|[Hg [d L]]];
+    [|destruct (W_link_refused c p0 d k s Hg L Hd) as [er X]; rewrite X; discriminate].
   assert (Stop : forall f0, s p0 = Some f0 -> (c_allow c = false \/ f_isdir f0 = true) -> exists er, write_item render e c s (p0, k) = (s, Err er)).
-  { intros f0 E0 [Ha|D]; [now apply (W_refuse_any render e c p0 Hd k s f0) | now apply (W_dir_refused render e c p0 Hd k s f0)]. }
+  { intros f0 E0 [Ha|D]; [now apply (W_refuse_any render e c p0 Hl Hd k s f0) | now apply (W_dir_refused render e c p0 Hl Hd k s f0)]. }
   destruct (N.eq_dec p p0) as [->|Hne].
   - destruct (Stop f Hp Hb) as [er H]. rewrite H. discriminate.
   - destruct Hin as [->|Hin]; [congruence|].
-    destruct (write_item_rel_fine c (p0, k) Hit s p) as [_ [Mk _]]. cbn [fst] in Mk.
+    destruct (write_item_rel_fine c (p0, k) Hit Lk0 s p) as [_ [Mk _]]. cbn [fst] in Mk.
     destruct (write_item render e c s (p0, k)) as [s1 [|er]]; cbn [fst] in Mk.
     + rewrite bind_pair_ok. apply IH; [intros it Hi; apply Hsub; now right|].
       rewrite Hp in Mk. destruct (s1 p) as [f1|] eqn:E1; cbn in Mk; [|contradiction].
@@ -907,17 +920,29 @@ Proof.
     + rewrite bind_pair_err. discriminate.
 Qed.
 
+(* with a gate that refuses links, a link at a target makes the run fail (nothing is written through it) *)
+Lemma list_link_fails : forall c, c_dryrun c = false -> gate_refuses_links -> forall l s,
+  (exists p, In p (map fst l) /\ links e p <> None) -> snd (WL c s l) <> Ok.
+Proof.
+  intros c Hd Hg l. induction l as [|[p0 k] r IH]; intros s [p [Hin Hp]]; cbn [run_list map fst] in *; [contradiction|].
+  destruct (links e p0) as [d|] eqn:L.
+  - destruct (W_link_refused c p0 d k s Hg L Hd) as [er X]. rewrite X. discriminate.
+  - destruct Hin as [->|Hin]; [congruence|].
+    destruct (write_item render e c s (p0, k)) as [s1 [|er]]; [rewrite bind_pair_ok; apply IH; eauto | rewrite bind_pair_err; discriminate].
+Qed.
+
 (* ---- overwriting always works when the chains are ready and the entries are the runner's ---- *)
-Lemma list_total : forall c, c_dryrun c = false -> c_allow c = true -> compatible c c -> forall l s,
+Lemma list_total : forall c, c_dryrun c = false -> c_allow c = true -> compatible c c -> links_clear c -> forall l s,
   (forall it, In it l -> In it (items c)) ->
   chmodable e s -> (forall p, In p (map fst l) -> ready e s p = true) -> snd (WL c s l) = Ok.
 Proof.
-  intros c Hd Ha Hc l. induction l as [|[p0 k] r IH]; intros s Hsub Hch Hr; cbn [run_list map fst] in *; [reflexivity|].
+  intros c Hd Ha Hc Lc l. induction l as [|[p0 k] r IH]; intros s Hsub Hch Hr; cbn [run_list map fst] in *; [reflexivity|].
   assert (Hit : In (p0, k) (items c)) by (apply Hsub; now left).
-  destruct (W_total render e Hind Hwf c p0 Hd k s Ha (Hr p0 (or_introl eq_refl)) (Hch p0)) as [s1 [own [H1 _]]].
+  assert (Hl : links e p0 = None) by (apply Lc; unfold targets; now apply (in_map fst _ (p0, k))).
+  destruct (W_total render e Hind Hwf c p0 Hl Hd k s Ha (Hr p0 (or_introl eq_refl)) (Hch p0)) as [s1 [own [H1 _]]].
   rewrite H1, bind_pair_ok.
   assert (Rl : rel e (tgt c) (anc e c) s s1).
-  { replace s1 with (fst (write_item render e c s (p0, k))) by now rewrite H1. now apply write_item_rel_fine. }
+  { replace s1 with (fst (write_item render e c s (p0, k))) by now rewrite H1. apply write_item_rel_fine; [exact Hit | now left]. }
   apply IH.
   - intros it Hi. apply Hsub. now right.
   - eapply rel_chmodable; eauto.
@@ -944,88 +969,91 @@ Notation STEP := (step render e).
 Notation HIST := (history render e).
 
 (* any state -- in particular the state after any history of runs and crashes *)
-Lemma canonical_any_state : forall s c p,
+Notation links_safe := (links_safe e).
+Notation links_clear := (links_clear e).
+
+Lemma canonical_any_state : forall s c p, links_safe c ->
   c_dryrun c = false -> c_filepps c <> [] -> snd (STEP s c) = Ok -> In p (targets c) ->
   obs (fst (STEP s c) p) = canonical render e c p.
 Proof.
-  intros s c p Hd Hpp Hok Hin. rewrite step_flat in *.
+  intros s c p Ls Hd Hpp Hok Hin. rewrite step_flat in *.
   destruct (run_list (write_item render e c) s (items c)) as [s' r] eqn:H. cbn [fst snd] in *. subst r.
-  destruct (list_canonical render e Hind Hwf c Hd (items c) s s' p H Hin) as [f' [E [C [_ M]]]].
+  destruct (list_canonical render e Hind Hwf c Hd (items c) s s' p Ls H Hin) as [f' [E [C [_ M]]]].
   rewrite E. unfold obs, canonical. rewrite C, (M Hpp). f_equal. f_equal. now apply last_mode_irrel.
 Qed.
 
-Lemma content_any_state : forall s c p,
+Lemma content_any_state : forall s c p, links_safe c ->
   c_dryrun c = false -> snd (STEP s c) = Ok -> In p (targets c) ->
   exists f, fst (STEP s c) p = Some f /\ f_isdir f = false /\ f_cid f = render empty_fs 0 (c_class c) p.
 Proof.
-  intros s c p Hd Hok Hin. rewrite step_flat in *.
+  intros s c p Ls Hd Hok Hin. rewrite step_flat in *.
   destruct (run_list (write_item render e c) s (items c)) as [s' r] eqn:H. cbn [fst snd] in *. subst r.
-  destruct (list_canonical render e Hind Hwf c Hd (items c) s s' p H Hin) as [f' [E [C [D _]]]]. eauto.
+  destruct (list_canonical render e Hind Hwf c Hd (items c) s s' p Ls H Hin) as [f' [E [C [D _]]]]. eauto.
 Qed.
 
-Theorem regen_equals_fresh : forall h s0 c p,
+Theorem regen_equals_fresh : forall h s0 c p, links_safe c ->
   c_dryrun c = false -> c_filepps c <> [] ->
   snd (STEP (HIST s0 h) c) = Ok -> snd (STEP empty_fs c) = Ok -> In p (targets c) ->
   obs (fst (STEP (HIST s0 h) c) p) = obs (fst (STEP empty_fs c) p).
 Proof.
-  intros h s0 c p Hd Hpp H1 H2 Hin.
-  rewrite (canonical_any_state (HIST s0 h) c p Hd Hpp H1 Hin).
-  now rewrite (canonical_any_state empty_fs c p Hd Hpp H2 Hin).
+  intros h s0 c p Ls Hd Hpp H1 H2 Hin.
+  rewrite (canonical_any_state (HIST s0 h) c p Ls Hd Hpp H1 Hin).
+  now rewrite (canonical_any_state empty_fs c p Ls Hd Hpp H2 Hin).
 Qed.
 
 (* ---- footprint ---- *)
-Theorem written_in_footprint : forall s c q, fst (STEP s c) q <> s q ->
+Theorem written_in_footprint : forall s c q, links_safe c -> fst (STEP s c) q <> s q ->
   In q (targets c) \/ (In q (dir_targets e c) /\ s q = None /\ fst (STEP s c) q = Some (new_dir e)).
 Proof.
-  intros s c q H. destruct (in_dec N.eq_dec q (targets c)) as [X|X]; [now left|]. right.
-  destruct (step_rel_fine render e Hind Hwf c s q) as [F _]. destruct (F X) as [Y|Y]; [contradiction | exact Y].
+  intros s c q Ls H. destruct (in_dec N.eq_dec q (targets c)) as [X|X]; [now left|]. right.
+  destruct (step_rel_fine render e Hind Hwf c Ls s q) as [F _]. destruct (F X) as [Y|Y]; [contradiction | exact Y].
 Qed.
 
-Theorem foreign_event : forall s ev q,
+Theorem foreign_event : forall s ev q, links_safe (ev_cfg ev) ->
   ~ In q (targets (ev_cfg ev)) -> (s q <> None \/ ~ In q (dir_targets e (ev_cfg ev))) -> apply_event render e s ev q = s q.
 Proof.
-  intros s ev q X Z. destruct (event_rel_fine render e Hind Hwf ev s q) as [F _].
+  intros s ev q Ls X Z. destruct (event_rel_fine render e Hind Hwf ev s Ls q) as [F _].
   destruct (F X) as [Y|[A [N _]]]; [exact Y|]. destruct Z; [congruence | contradiction].
 Qed.
 
-Theorem foreign_untouched : forall s c q,
+Theorem foreign_untouched : forall s c q, links_safe c ->
   ~ In q (targets c) -> (s q <> None \/ ~ In q (dir_targets e c)) -> fst (STEP s c) q = s q.
 Proof. intros s c. exact (foreign_event s (Run c)). Qed.
 
-Theorem history_foreign : forall h s q,
+Theorem history_foreign : forall h s q, (forall ev, In ev h -> links_safe (ev_cfg ev)) ->
   (forall ev, In ev h -> ~ In q (targets (ev_cfg ev))) ->
   (s q <> None \/ forall ev, In ev h -> ~ In q (dir_targets e (ev_cfg ev))) ->
   HIST s h q = s q.
 Proof.
-  intros h s q X Z. destruct (history_rel_fine render e Hind Hwf h s q) as [F _].
+  intros h s q Ls X Z. destruct (history_rel_fine render e Hind Hwf h s Ls q) as [F _].
   destruct F as [F|[[ev [Hev A]] [N _]]].
   - intros [ev [Hev W]]. exact (X ev Hev W).
   - exact F.
   - destruct Z as [Z|Z]; [congruence | exfalso; exact (Z ev Hev A)].
 Qed.
 
-Theorem foreign_dirs_only : forall h s q,
+Theorem foreign_dirs_only : forall h s q, (forall ev, In ev h -> links_safe (ev_cfg ev)) ->
   (forall ev, In ev h -> ~ In q (targets (ev_cfg ev))) ->
   HIST s h q = s q \/ (s q = None /\ HIST s h q = Some (new_dir e)).
 Proof.
-  intros h s q X. destruct (history_rel_fine render e Hind Hwf h s q) as [F _].
+  intros h s q Ls X. destruct (history_rel_fine render e Hind Hwf h s Ls q) as [F _].
   destruct F as [F|[_ [N F]]]; [|now left | right; auto].
   intros [ev [Hev W]]. exact (X ev Hev W).
 Qed.
 
 (* ---- no overwrite ---- *)
-Theorem no_overwrite_safe : forall s c q, c_allow c = false -> s q <> None -> fst (STEP s c) q = s q.
+Theorem no_overwrite_safe : forall s c q, links_safe c -> c_allow c = false -> s q <> None -> fst (STEP s c) q = s q.
 Proof.
-  intros s c q Ha Hq. rewrite step_flat. destruct (c_dryrun c) eqn:Hd.
+  intros s c q Ls Ha Hq. rewrite step_flat. destruct (c_dryrun c) eqn:Hd.
   - now rewrite list_dry.
   - now apply list_noov_keep.
 Qed.
 
 Theorem no_overwrite_safe_history : forall h s0 q,
-  (forall ev, In ev h -> exists c, ev = Run c /\ c_allow c = false) -> s0 q <> None -> HIST s0 h q = s0 q.
+  (forall ev, In ev h -> exists c, ev = Run c /\ c_allow c = false /\ links_safe c) -> s0 q <> None -> HIST s0 h q = s0 q.
 Proof.
   induction h as [|ev r IH]; intros s0 q Hall Hq; cbn [history fold_left]; [reflexivity|].
-  destruct (Hall ev (or_introl eq_refl)) as [c [-> Ha]]. cbn [apply_event].
+  destruct (Hall ev (or_introl eq_refl)) as [c [-> [Ha Ls]]]. cbn [apply_event].
   assert (E : fst (STEP s0 c) q = s0 q) by (now apply no_overwrite_safe).
   unfold history in IH. rewrite IH.
   - exact E.
@@ -1033,27 +1061,27 @@ Proof.
   - congruence.
 Qed.
 
-Theorem no_overwrite_conflict_fails : forall s c,
+Theorem no_overwrite_conflict_fails : forall s c, links_safe c ->
   c_dryrun c = false -> c_allow c = false ->
   (exists p, In p (targets c) /\ s p <> None) -> snd (STEP s c) <> Ok.
 Proof.
-  intros s c Hd Ha [p [Hin Hp]]. rewrite step_flat. apply (list_blocked_fails render e Hind Hwf c Hd); auto.
+  intros s c Ls Hd Ha [p [Hin Hp]]. rewrite step_flat. apply (list_blocked_fails render e Hind Hwf c Hd Ls); auto.
   destruct (s p) as [f|] eqn:E; [|congruence]. exists p, f. auto.
 Qed.
 
 (* a directory at the path of a file to generate is never written into, chmod-ed or replaced: the run fails (fix 7df01dd) *)
-Theorem directory_at_target_fails : forall s c,
+Theorem directory_at_target_fails : forall s c, links_safe c ->
   c_dryrun c = false -> (exists p, In p (targets c) /\ fs_is_dir s p = true) -> snd (STEP s c) <> Ok.
 Proof.
-  intros s c Hd [p [Hin Hp]]. rewrite step_flat. apply (list_blocked_fails render e Hind Hwf c Hd); auto.
+  intros s c Ls Hd [p [Hin Hp]]. rewrite step_flat. apply (list_blocked_fails render e Hind Hwf c Hd Ls); auto.
   unfold fs_is_dir in Hp. destruct (s p) as [f|] eqn:E; [|discriminate]. exists p, f. auto.
 Qed.
 
-Theorem directory_at_target_kept : forall s ev q f, s q = Some f -> f_isdir f = true ->
+Theorem directory_at_target_kept : forall s ev q f, links_safe (ev_cfg ev) -> s q = Some f -> f_isdir f = true ->
   exists f', apply_event render e s ev q = Some f' /\ f_isdir f' = true /\ f_owned f' = f_owned f /\
              (~ In q (targets (ev_cfg ev)) -> f' = f).
 Proof.
-  intros s ev q f E D. pose proof (event_rel_fine render e Hind Hwf ev s) as Rl.
+  intros s ev q f Ls E D. pose proof (event_rel_fine render e Hind Hwf ev s Ls) as Rl.
   destruct (rel_keeps_kind render e _ _ _ _ q f Rl E) as [f' [E' [D' O']]]. exists f'. repeat split; auto; [congruence|].
   intros X. destruct (Rl q) as [F _]. destruct (F X) as [Y|[_ [Y _]]]; congruence.
 Qed.
@@ -1065,12 +1093,13 @@ Proof. intros s c Hd. rewrite step_flat. now apply list_dry. Qed.
 Theorem regen_total_history : forall h s0 c,
   chmodable e s0 -> (forall p, In p (targets c) -> ready e s0 p = true) ->
   compatible e c c -> (forall ev, In ev h -> compatible e c (ev_cfg ev)) ->
+  links_clear c -> (forall ev, In ev h -> links_safe (ev_cfg ev)) ->
   c_allow c = true -> c_dryrun c = false ->
   snd (STEP (HIST s0 h) c) = Ok.
 Proof.
-  intros h s0 c Hch Hr Hcc Hch' Ha Hd. rewrite step_flat.
-  pose proof (history_rel_fine render e Hind Hwf h s0) as Rl.
-  apply (list_total render e Hind Hwf c Hd Ha Hcc); auto.
+  intros h s0 c Hch Hr Hcc Hch' Lc Lh Ha Hd. rewrite step_flat.
+  pose proof (history_rel_fine render e Hind Hwf h s0 Lh) as Rl.
+  apply (list_total render e Hind Hwf c Hd Ha Hcc Lc); auto.
   - eapply rel_chmodable; eauto.
   - intros p Hp. apply (ready_preserved e _ _ s0 _ p Rl).
     + intros q Hq [ev [Hev Ht]]. apply (proj1 (Hch' ev Hev) q); [|exact Ht].
@@ -1079,8 +1108,13 @@ Proof.
     + now apply Hr.
 Qed.
 
-Theorem chmodable_history : forall h s0, chmodable e s0 -> chmodable e (HIST s0 h).
-Proof. intros h s0 H. eapply rel_chmodable; [apply history_rel | exact H]. Qed.
+Theorem chmodable_history : forall h s0, (forall ev, In ev h -> links_safe (ev_cfg ev)) -> chmodable e s0 -> chmodable e (HIST s0 h).
+Proof. intros h s0 Ls H. eapply rel_chmodable; [apply (history_rel_fine render e Hind Hwf h s0 Ls) | exact H]. Qed.
+
+(* with a gate that refuses links: a link at a target makes the run fail *)
+Theorem symlink_at_target_fails : forall s c, gate_refuses_links ->
+  c_dryrun c = false -> (exists p, In p (targets c) /\ links e p <> None) -> snd (STEP s c) <> Ok.
+Proof. intros s c Hg Hd H. rewrite step_flat. now apply (list_link_fails render e c Hd Hg). Qed.
 
 (* all three writers are "the gate, then the rest" *)
 Theorem same_gate : forall c p k, c_dryrun c = false ->
@@ -1113,9 +1147,10 @@ Proof. reflexivity. Qed.
 Definition wit_render : fs -> N -> N -> path -> N := fun _ _ cl p => 1000000 + cl * 10000 + p.
 
 (* paths: 1 = nunavut/, 2 = nunavut/extra.hpp (target of a copied support file), 3 = nunavut/extra.hpp/extra.h, 4 = nunavut/x.hpp *)
-Definition wit_env (su : bool) : env :=
-  mkEnv su 18 true (fun p => if N.eqb p 2 then [1] else if N.eqb p 3 then [1; 2] else if N.eqb p 4 then [1] else [])
-        (fun p => p + 1).
+Definition wit_anc (p : path) : list path := if N.eqb p 2 then [1] else if N.eqb p 3 then [1; 2] else if N.eqb p 4 then [1] else [].
+Definition wit_env (su : bool) : env := mkEnv su 18 true wit_anc (fun p => p + 1) (fun _ => None).
+(* the same tree where 4 = nunavut/x.hpp is a symbolic link to 9, a path outside the output directory *)
+Definition wit_env_link (su : bool) : env := mkEnv su 18 true wit_anc (fun p => p + 1) (fun p => if N.eqb p 4 then Some 9 else None).
 Definition wit_cfg (allow linepps : bool) (types : list path) (typesup : list (path * bool)) : cfg :=
   mkCfg 7 0 allow false linepps [PPSetFileMode 292] GSAlways false [] typesup types 416.
 
@@ -1125,3 +1160,40 @@ Theorem foreign_unconditional_refuted :
 Proof.
   exists (wit_env false), empty_fs, (wit_cfg true false [4] []), 1. vm_compute. repeat split; try discriminate. intuition discriminate.
 Qed.
+
+(* ---- symbolic links at targets (audit 2, G-C12-1) ------------------------------------------------------------------------
+   Whether the gate of /repo refuses links is decided by computation on the translated gate: *)
+Definition wit_dirs : fs := upd empty_fs 1 (mkF 0 493 true true).
+Definition link_quirk : bool :=
+  is_ok (snd (step wit_render (wit_env_link false) wit_dirs (wit_cfg false false [4] []))).
+
+Lemma gate_links_dichotomy : gate_refuses_links \/ link_quirk = true.
+Proof.
+  first [ left; intros e s p a d L; unfold handle_overwrite, is_symlink; rewrite L;
+          destruct (fs_exists s (resolve e p)), (fs_is_dir s (resolve e p)), a; cbn [orb andb negb]; eexists; reflexivity
+        | right; vm_compute; reflexivity ].
+Qed.
+
+(* (a) a DANGLING link at a target under --no-overwrite: exists() is False, no conflict is reported, the run succeeds and the
+   file is created at the link's destination -- a path that is not a target (outside the output directory) *)
+Theorem dangling_link_no_overwrite_refuted : link_quirk = true ->
+  exists e s c p d, c_allow c = false /\ c_dryrun c = false /\ In p (targets c) /\ links e p = Some d /\
+    ~ In d (targets c) /\ s d = None /\ snd (step wit_render e s c) = Ok /\
+    obs (fst (step wit_render e s c) d) = Some (1070004, 292).
+Proof.
+  unfold link_quirk. intros H.
+  exists (wit_env_link false), wit_dirs, (wit_cfg false false [4] []), 4, 9.
+  vm_compute in H. first [discriminate H | clear H; vm_compute; intuition (try discriminate; try reflexivity)].
+Qed.
+
+(* (b) a LIVE link to a foreign read-only file, overwriting allowed: the foreign file is chmod-ed and rewritten *)
+Theorem live_link_overwrite_refuted : link_quirk = true ->
+  exists e s c p d, c_allow c = true /\ c_dryrun c = false /\ In p (targets c) /\ links e p = Some d /\
+    ~ In d (targets c) /\ obs (s d) = Some (55, 292) /\ snd (step wit_render e s c) = Ok /\
+    obs (fst (step wit_render e s c) d) = Some (1070004, 292).
+Proof.
+  unfold link_quirk. intros H.
+  exists (wit_env_link false), (upd wit_dirs 9 (mkF 55 292 true false)), (wit_cfg true false [4] []), 4, 9.
+  vm_compute in H. first [discriminate H | clear H; vm_compute; intuition (try discriminate; try reflexivity)].
+Qed.
+
